@@ -42,6 +42,26 @@ func (x *Executor) execCall(fr *Frame, st *State, reach string, call *ssa.CallCo
 		bind = fv.Bind
 	}
 	if callee == nil {
+		// a call through a function-typed struct field may have a contract keyed "Struct.field"
+		// (written like a method: the first parameter stands for the struct)
+		if ld, ok := call.Value.(*ssa.UnOp); ok {
+			if fa, ok := ld.X.(*ssa.FieldAddr); ok {
+				if pt, ok := fa.X.Type().Underlying().(*types.Pointer); ok {
+					if n, ok := pt.Elem().(*types.Named); ok && n.Obj().Pkg() != nil {
+						stt := pt.Elem().Underlying().(*types.Struct)
+						key := n.Obj().Name() + "." + stt.Field(fa.Field).Name()
+						if con := x.u.eng.specs.Contracts[n.Obj().Pkg().Path()][key]; con != nil {
+							con.Used = true
+							recv := x.value(fr, fa.X)
+							if recv.Addr != nil {
+								recv = Val{T: "0", Ty: recv.Ty}
+							}
+							return x.applyContract(fr, st, reach, con, call.Signature(), append([]Val{recv}, args...), resTy, key)
+						}
+					}
+				}
+			}
+		}
 		return x.havocCall(fr, st, reach, "call through function value "+call.Value.Name(), args, resTy)
 	}
 	return x.callStatic(fr, st, reach, callee, bind, args, resTy)
@@ -94,7 +114,7 @@ func (x *Executor) callStatic(fr *Frame, st *State, reach string, callee *ssa.Fu
 	return x.havocCall(fr, st, reach, "call to "+name+" (no contract)", args, resTy)
 }
 
-// smallLeaf: a short, loop-free function that calls at most builtins and other small leaves.
+// smallLeaf: a short, loop-free function that calls nothing but builtins.
 func smallLeaf(fn *ssa.Function) bool {
 	n := 0
 	for _, b := range fn.Blocks {
@@ -119,7 +139,7 @@ func smallLeaf(fn *ssa.Function) bool {
 				if callee == nil || callee == fn {
 					return false
 				}
-				if !strings.HasPrefix(callee.Name(), "ssa:") && len(callee.Blocks) > 3 {
+				if !strings.HasPrefix(callee.Name(), "ssa:") {
 					return false
 				}
 			}
@@ -401,14 +421,28 @@ func (x *Executor) havocLoc(env *Env, st, pre *State, m Expr) error {
 					if sel.Name == "*" {
 						return fmt.Errorf("T.* not supported")
 					}
-					comp, _ := u.fieldComp(ty, sel.Name)
-					x.heapHavoc(st, comp)
+					for _, comp := range x.wholeComps(ty, sel.Name) {
+						x.heapHavoc(st, comp)
+					}
 					return nil
 				}
 			}
 		}
-		// p.f : single location
-		pv, err := (&Env{x: x, u: u, vars: env.vars, bound: env.bound, st: pre, old: pre, pkg: env.pkg}).Eval(sel.X)
+		// p.f : single location (p may itself be a path through nested struct fields)
+		penv := &Env{x: x, u: u, vars: env.vars, bound: env.bound, st: pre, old: pre, pkg: env.pkg}
+		if ref, sty, ok := x.lvalRef(penv, sel.X); ok {
+			fty := fieldType(u, sty, sel.Name)
+			if fty == nil {
+				return fmt.Errorf("no field %s in %s", sel.Name, sty)
+			}
+			for _, loc := range x.fieldLocs(sty, sel.Name, ref) {
+				elemSort := strings.TrimSuffix(strings.TrimPrefix(u.heapSorts[loc.comp], "(Array Int "), ")")
+				nv := u.freshConst("mod$"+sel.Name, elemSort)
+				x.heapSet(st, loc.comp, fmt.Sprintf("(store %s %s %s)", x.heapGet(st, loc.comp), loc.ref, nv))
+			}
+			return nil
+		}
+		pv, err := penv.Eval(sel.X)
 		if err != nil {
 			return err
 		}
@@ -523,6 +557,62 @@ func (x *Executor) havocLoc(env *Env, st, pre *State, m Expr) error {
 		return nil
 	}
 	return fmt.Errorf("unsupported modifies target %s", m.String())
+}
+
+// wholeComps: the heap components that make up field f of every object of struct/interface type ty.
+func (x *Executor) wholeComps(ty types.Type, f string) []string {
+	u := x.u
+	fty := fieldType(u, ty, f)
+	if fty != nil && isFlattened(fty) {
+		var out []string
+		if at, ok := fty.Underlying().(*types.Array); ok {
+			c, _ := u.elemComp(at.Elem())
+			return []string{c}
+		}
+		st := fty.Underlying().(*types.Struct)
+		for i := 0; i < st.NumFields(); i++ {
+			out = append(out, x.wholeComps(fty, st.Field(i).Name())...)
+		}
+		return out
+	}
+	c, _ := u.fieldComp(ty, f)
+	return []string{c}
+}
+
+// fieldLocs: the (component, reference) pairs of field f of the struct object at ref.
+func (x *Executor) fieldLocs(sty types.Type, f string, ref string) []objLoc {
+	u := x.u
+	fty := fieldType(u, sty, f)
+	if fty != nil && isFlattened(fty) {
+		return x.compsOfObject(u.subRef(sty, f, ref), fty)
+	}
+	c, _ := u.fieldComp(sty, f)
+	return []objLoc{{c, ref}}
+}
+
+// lvalRef: the reference and struct type of the struct object an expression denotes (a pointer to
+// a struct, or a path of struct-valued fields starting at one).
+func (x *Executor) lvalRef(env *Env, e Expr) (string, types.Type, bool) {
+	u := x.u
+	if sel, ok := e.(*ESel); ok {
+		if ref, sty, ok := x.lvalRef(env, sel.X); ok {
+			if fty := fieldType(u, sty, sel.Name); fty != nil {
+				if _, isS := fty.Underlying().(*types.Struct); isS && isFlattened(fty) {
+					return u.subRef(sty, sel.Name, ref), fty, true
+				}
+			}
+		}
+	}
+	v, err := env.Eval(e)
+	if err != nil || v.Addr != nil || v.Ty == nil {
+		return "", nil, false
+	}
+	if pt, ok := v.Ty.Underlying().(*types.Pointer); ok {
+		if _, isS := pt.Elem().Underlying().(*types.Struct); isS {
+			return v.T, pt.Elem(), true
+		}
+	}
+	return "", nil, false
 }
 
 func (x *Executor) lookupTypeName(env *Env, name string) types.Type {
